@@ -57,6 +57,15 @@ Connect(c, k) ==
     /\ cap' = [cap EXCEPT ![c] = k] /\ lastc' = c
     /\ UNCHANGED <<buf, req, rsp, cl>>
 
+\* client c's SDP channel is closed while c has no transaction in progress: c's server-side state goes with it and
+\* NOTHING of any other client changes (another client may be in the middle of a continued transaction)
+Disconnect(c) ==
+    /\ cap[c] > 0 /\ cl[c].st = "idle" /\ req[c] = NoReq
+    /\ cap' = [cap EXCEPT ![c] = 0]
+    /\ buf' = IF Shared THEN [s \in Slots |-> NoBuf] ELSE [buf EXCEPT ![c] = NoBuf]
+    /\ rsp' = [rsp EXCEPT ![c] = <<>>]
+    /\ UNCHANGED <<lastc, req, cl>>
+
 \* the client API is called: a new transaction whose full answer has T units
 NewRequest(c, T) ==
     /\ cap[c] > 0 /\ cl[c].st = "idle" /\ cl[c].r < MaxReq
@@ -120,6 +129,7 @@ DoServe(c) == \E k \in 0..MaxAns : Serve(c, k, cap[Dest(c)])
 
 Next == \E c \in Clients :
            \/ \E k \in Caps : Connect(c, k)
+           \/ Disconnect(c)
            \/ \E T \in 0..MaxAns : NewRequest(c, T)
            \/ DoServe(c)
            \/ ServeError(c)
